@@ -306,23 +306,26 @@ func Collect(all []Scenario) (map[string]any, []vcommon.Violation) {
 // are returned as locations to promote.
 func runRound(id string, scens []*Scenario, jobs []jobT, promote []string, raceNotes []any) (reports []scenReport, viols []vcommon.Violation, samples []any, allComplete bool, newLocs []string, notes []any) {
 	notes = raceNotes
-	// every job gets a fair share of the budget: the pool runs NProc jobs at a time, so with
-	// w waves of jobs each may use 1/w of the time that is left
-	waves := (len(jobs) + vcommon.NProc() - 1) / vcommon.NProc()
-	left := time.Until(deadline()).Seconds()
-	jobCap := left / float64(waves)
-	if jobCap < 5 {
-		jobCap = 5
-	}
+	// every job gets a fair share of what is left of the budget when it starts: the pool runs
+	// NProc jobs at a time, so with w waves of jobs still to come each may use 1/w of the rest
+	// (jobs that finish early leave their share to the later ones)
 	var args [][]string
 	for _, j := range jobs {
 		var bs []string
 		for _, b := range j.bounds {
 			bs = append(bs, fmt.Sprint(b))
 		}
-		args = append(args, []string{"-scen", j.scen.Name, "-bounds", strings.Join(bs, ","), "-shard", fmt.Sprintf("%d/%d", j.shard, j.n), "-jobcap", fmt.Sprintf("%.1f", jobCap), "-promote", strings.Join(promote, ",")})
+		args = append(args, []string{"-scen", j.scen.Name, "-bounds", strings.Join(bs, ","), "-shard", fmt.Sprintf("%d/%d", j.shard, j.n), "-promote", strings.Join(promote, ",")})
 	}
-	outs := vcommon.RunJobs(args)
+	share := func(remaining int) []string {
+		waves := (remaining + vcommon.NProc() - 1) / vcommon.NProc()
+		jobCap := time.Until(deadline()).Seconds() / float64(waves)
+		if jobCap < 5 {
+			jobCap = 5
+		}
+		return []string{"-jobcap", fmt.Sprintf("%.1f", jobCap)}
+	}
+	outs := vcommon.RunJobsWith(args, share)
 	allComplete = true
 	for _, s := range scens {
 		p := plan(s)
